@@ -22,6 +22,7 @@ type Collector struct {
 	Part        string         `json:"part"`
 	Evaluations int            `json:"evaluations"`
 	NonTrivial  []string       `json:"nontrivial_digests"`
+	NTCount     int            `json:"nontrivial_count"` // distinct non-trivial cases counted without keeping their digests (complete enumerations)
 	Labels      map[string]int `json:"labels"`
 	Samples     []any          `json:"samples"`
 	Excluded    int            `json:"excluded_known"`
